@@ -108,7 +108,8 @@ CHECKS = {
                      "with arbitrary reception times; tick runner with 1-2 requests of arbitrary delay 0..1h; MESH: 3 real nodes running the real "
                      "runProtocol over in-order in-memory sessions, every initial topology (8) with arbitrary positive link costs, brought up link by link, "
                      "then 1 event of {none, link lost, link added, node stopped, node restarted under its name and re-attached link by link}, then the "
-                     "pending requests and 2 route-update periods; one (run-to-block) interleaving",
+                     "pending requests and 2 route-update periods; one (run-to-block) interleaving; a direct link (arbitrary cost < 2) lost right after "
+                     "acceptance, after the peer's confirmation, or after a further update",
             "thorough": "as quick with every directed graph over 4 nodes (12 edges), 1-3 tick requests, and 2 consecutive mesh events",
         },
         "no_native": ["Verif_C01_tick_coalesce"],
@@ -151,7 +152,7 @@ CHECKS = {
                   "operations (crash index 1..8); one acknowledged command unit and one acknowledged remote unit followed by 1-2 updates with a crash "
                   "at any operation, then the real restart scan; restart on a record in each of the 5 states; status query for a unit only on disk; "
                   "restart scan of a Pending/Running unit while its live runner rewrites the record (2 pre-emptions, every file-system operation a "
-                  "scheduling point)",
+                  "scheduling point); the real startRemoteUnit against a model of the remote node with 0..2 input bytes",
         "no_native": ["Verif_C04_rewrite_crash_index", "Verif_C04_acked_unit_survives", "Verif_C04_remote_binding_survives",
                       "Verif_C04_remote_binding_recorded_before_input_is_sent"],
         "crash_native": {"Verif_C04_rewrite_crash_index": "native/c04_crash.py"},
@@ -227,7 +228,7 @@ CHECKS = {
         "bounds": "output written in up to 3 chunks of 0..2, 0..2 and 0..1 arbitrary bytes, the file present or not when streaming starts, every start "
                   "offset 0..size+1, the unit recorded finished (succeeded or failed) with a size equal to or larger than what is stored; reader "
                   "polls interleaved with the producer at 5 points; REMOTE MIRROR: finished remote unit with 0..3 arbitrary output bytes, 0..len already "
-                  "stored locally, every chunking of header line and data (header alone or with the first k bytes, then byte by byte), up to 2 link "
+                  "stored locally; results COMMAND for a running unit with 3 stored bytes, recorded size 0..3, start offset 0..3; every chunking of header line and data (header alone or with the first k bytes, then byte by byte), up to 2 link "
                   "failures (error or clean end of stream) at any chunk boundary, 0..1 refused connection attempts, 12 one-second timer steps",
         "common": {"native_timeout": 300, "witnesses": 1},
         "no_native": ["Verif_C05_remote_mirror"],
